@@ -14,7 +14,7 @@ PROOF-OF-MECHANISM (relational emission contract + contracts on the store / load
                               zip mode changes only the container (ZipFile(target,'w',mode) / writestr vs open(join(target,
                               filename),'wb') / write(encode('utf8'))); TemplateSyntaxError is skipped iff ignore_errors; the
                               archive is closed on every path
-  C31.module_loader.*         get_template_key = 'tmpl_' + sha1(name utf-8).hexdigest(); get_module_filename = key + '.py';
+  C31.module_loader.*         get_template_key = 'tmpl_' + sha1(normalised name utf-8).hexdigest() (exhaustive name family, no demand on the code's shape); get_module_filename = key + '.py';
                               load imports <package>.<key> (fromlist ['root']), ImportError -> TemplateNotFound(name), builds
                               the template with template_class.from_module_dict(environment, mod.__dict__, globals or {});
                               from_module_dict and from_code both return _from_namespace(environment, namespace, globals),
@@ -155,7 +155,8 @@ def native_precompiled(w=None, only_modes=None):
         # at compile time - filters on constants, finalize - is part of the premise "configured like the compiling one")
         shared = {"base.html": "[{% block body %}{% endblock %}]", "lib.html": "{% macro tag(v) %}<{{ v|mark }}>{% endmacro %}",
                   "page.html": "{% extends 'base.html' %}{% import 'lib.html' as lib %}{% block body %}{{ lib.tag(w) }}|{{ nothing }}|{{ w|mark }}{% endblock %}",
-                  "inc.html": "{% include 'leaf.html' %}{{ w|mark }}", "leaf.html": "({{ missing_name }})"}
+                  "inc.html": "{% include 'leaf.html' %}{{ w|mark }}", "leaf.html": "({{ missing_name }})",
+                  "late.html": "{{ late }}|{{ w }}"}
 
         def scenario(loader):
             base = Environment(loader=loader)
@@ -183,6 +184,12 @@ def native_precompiled(w=None, only_modes=None):
                 out.append(("base again", name, r(t1)))
                 out.append(("overlay again", name, r(t2)))
                 out.append(("base reloaded", name, r(base.get_template(name))))
+            # an environment global added after the template was loaded is seen by the template (its globals are layered
+            # over the environment's, not a snapshot of them)
+            tl = base.get_template("late.html")
+            out.append(("before the global exists", "late.html", r(tl)))
+            base.globals["late"] = "LATE"
+            out.append(("global added after loading", "late.html", r(tl)))
             return out
 
         want = scenario(DictLoader(shared))
@@ -442,8 +449,9 @@ def defer_reads(task, tier, seed):
         for n in ast.walk(t2):
             if isinstance(n, ast.Attribute) and n.attr == "defer_init":
                 fails.append(f"{mod.__name__} line {n.lineno} reads .defer_init")
-    return [Res("C31.emit.defer_init.reads", "refuted" if fails else "discharged", "ast-scan", 0, "; ".join(fails[:3]), "table",
-                witness={"failures": fails[:5]} if fails else None)]
+    from contracts.emit_template import soften
+    return soften([Res("C31.emit.defer_init.reads", "refuted" if fails else "discharged", "ast-scan", 0, "; ".join(fails[:3]), "table",
+                       witness={"failures": fails[:5]} if fails else None)], replay_native)
 
 
 # ------------------------------------------------------------------------------------------ pipeline VCs
@@ -709,9 +717,13 @@ class CompileTemplates(VC):
         self.F_enc = F_enc
 
         def encode(I_, st, args, kwargs, node):
-            if list(args[1:]) not in (["utf8"], ["utf-8"]) and kwargs.get("encoding") not in ("utf8", "utf-8") and (args[1:] or kwargs):
-                raise Unsupported("encode with another codec", node)
-            return [(st, Sym(F_enc(to_term(args[0], "str")), "obj"))]
+            codec = (list(args[1:2]) or [kwargs.get("encoding", "utf-8")])[0]
+            errors = (list(args[2:3]) or [kwargs.get("errors", "strict")])[0]
+            if isinstance(codec, str) and codec.lower().replace("-", "") == "utf8" and errors == "strict":
+                return [(st, Sym(F_enc(to_term(args[0], "str")), "obj"))]
+            # any other codec / error handler: some other bytes (the contract demands the utf-8 encoding of the text)
+            other = z3.Function(f"str.encode.{codec}.{errors}", z3.StringSort(), KIND_OBJ)
+            return [(st, Sym(other(to_term(args[0], "str")), "obj"))]
 
         I.specs["str.encode"] = encode
 
@@ -898,22 +910,38 @@ def loader_tables(task, tier, seed):
                 fails.append(f"[normalisation] FileSystemLoader / PackageLoader load {sp!r} as {name!r}, but ModuleLoader.get_template_key gives another module name for it")
     row("key_normalisation", sorted(fails)[:6])
 
-    # structure of the two functions (so that the sample above generalises): key = "tmpl_" + sha1(name.encode("utf-8")).hexdigest()
+    # semantics of the two functions on an exhaustive family of names (no demand on the shape of the code): every name made
+    # of up to 4 segments from a segment alphabet that contains the empty and the "." segment:
+    #   key == "tmpl_" + sha1(normalised name), normalised = the segments without empty / "." ones joined by "/"
+    # hence equal keys for equivalent spellings, and different keys for different normalised names (checked on the family)
+    import itertools
     fails = []
-    k, _ = extract.function_ast(extract.resolve("jinja2.loaders:ModuleLoader.get_template_key"))
-    body = [s for s in k.body if not (isinstance(s, ast.Expr) and isinstance(s.value, ast.Constant))]
-    # the hashed text is the name, possibly after re-binding `name` to a normalised spelling of itself
-    pre_ok = all(isinstance(s_, ast.Assign) and len(s_.targets) == 1 and ast.unparse(s_.targets[0]) == "name" and
-                 {x.id for x in ast.walk(s_.value) if isinstance(x, ast.Name)} <= {"name", "p", "split_template_path", "str"} for s_ in body[:-1])
-    if not body or not pre_ok or not isinstance(body[-1], ast.Return) or ast.unparse(body[-1].value).replace('"', "'") not in ("'tmpl_' + sha1(name.encode('utf-8')).hexdigest()", "'tmpl_' + sha1(name.encode('utf8')).hexdigest()"):
-        fails.append(f"get_template_key body is {ast.unparse(k)[-160:]!r}")
+    alphabet = ["", ".", "a", "b.html", "ü", "..", "a b", "x" * 40]
+    seen = {}
+    n_names = 0
+    for n in range(1, 5):
+        for segs in itertools.product(alphabet, repeat=n):
+            name = "/".join(segs)
+            n_names += 1
+            norm = "/".join(x for x in segs if x not in ("", "."))
+            want = "tmpl_" + hashlib.sha1(norm.encode("utf-8")).hexdigest()
+            try:
+                got = L.ModuleLoader.get_template_key(name)
+                gotf = L.ModuleLoader.get_module_filename(name)
+            except Exception as ex:
+                fails.append(f"get_template_key({name!r}) raises {type(ex).__name__}")
+                continue
+            if got != want and len(fails) < 8:
+                fails.append(f"get_template_key({name!r}) = {got!r}, expected 'tmpl_' + sha1 of the normalised name {norm!r}")
+            if gotf != got + ".py" and len(fails) < 8:
+                fails.append(f"get_module_filename({name!r}) = {gotf!r}, expected the key + '.py'")
+            if seen.setdefault(got, norm) != norm and len(fails) < 8:
+                fails.append(f"the different templates {seen[got]!r} and {norm!r} share the module name {got}")
     if L.sha1 is not hashlib.sha1:
         fails.append("loaders.sha1 is not hashlib.sha1")
-    m, _ = extract.function_ast(extract.resolve("jinja2.loaders:ModuleLoader.get_module_filename"))
-    body = [s for s in m.body if not (isinstance(s, ast.Expr) and isinstance(s.value, ast.Constant))]
-    if len(body) != 1 or not isinstance(body[0], ast.Return) or ast.unparse(body[0].value).replace('"', "'") != "ModuleLoader.get_template_key(name) + '.py'":
-        fails.append(f"get_module_filename body is {ast.unparse(m)[-120:]!r}")
-    row("key_structure", fails)
+    rs.append(Res("C31.module_loader.key_semantics", "refuted" if fails else "discharged", "table", 0,
+                  "; ".join(fails[:3]) if fails else f"{n_names} names, {len(seen)} distinct normalised names", "table",
+                  witness={"failures": fails[:5]} if fails else None))
 
     # __init__: a package object whose __path__ is the given path(s), registered (weakly) in sys.modules under package_name
     fails = []
@@ -1262,18 +1290,37 @@ def constructor_tables(task, tier, seed):
         rs.append(Res(f"C31.module_loader.{name}", "refuted" if fails else "discharged", "ast+native", 0, "; ".join(fails[:3]), "table",
                       witness={"failures": fails[:5]} if fails else None))
 
-    fmd, _ = extract.function_ast(extract.resolve("jinja2.environment:Template.from_module_dict"))
-    body = [s for s in fmd.body if not (isinstance(s, ast.Expr) and isinstance(s.value, ast.Constant))]
+    # semantic, no demand on the code's shape: a Template subclass records what reaches _from_namespace
     fails = []
-    if not (len(body) == 1 and isinstance(body[0], ast.Return) and ast.unparse(body[0].value) == "cls._from_namespace(environment, module_dict, globals)"):
-        fails.append(f"from_module_dict is not `return cls._from_namespace(environment, module_dict, globals)`: {ast.unparse(fmd)[-100:]!r}")
-    fc, _ = extract.function_ast(extract.resolve("jinja2.environment:Template.from_code"))
-    calls = [ast.unparse(n) for n in ast.walk(fc) if isinstance(n, ast.Call) and isinstance(n.func, ast.Attribute) and n.func.attr == "_from_namespace"]
-    if calls != ["cls._from_namespace(environment, namespace, globals)"]:
-        fails.append(f"from_code builds the template with {calls}")
-    execs = [ast.unparse(n) for n in ast.walk(fc) if isinstance(n, ast.Call) and isinstance(n.func, ast.Name) and n.func.id == "exec"]
-    if execs != ["exec(code, namespace)"]:
-        fails.append(f"from_code executes {execs}")
+    from jinja2 import Environment as _Env
+    env0 = _Env()
+    calls = []
+
+    class Rec(E.Template):
+        @classmethod
+        def _from_namespace(cls, environment, namespace, globals):
+            calls.append((cls, environment, namespace, globals))
+            return super()._from_namespace(environment, namespace, globals)
+
+    ns0 = {"name": "n", "__file__": "f", "blocks": {}, "root": (lambda ctx: iter(())), "debug_info": ""}
+    g0 = {"G": 1}
+    t0_ = Rec.from_module_dict(env0, ns0, g0)
+    if len(calls) != 1 or calls[0][0] is not Rec or calls[0][1] is not env0 or calls[0][2] is not ns0 or calls[0][3] is not g0:
+        fails.append("from_module_dict does not build the template by cls._from_namespace(environment, <the module dict itself>, globals)")
+    elif not isinstance(t0_, Rec) or t0_.globals is not g0:
+        fails.append("from_module_dict does not return the template built by _from_namespace")
+    del calls[:]
+    code0 = env0.compile("{{ 1 }}{% block b %}x{% endblock %}", "nm", "fn")
+    g1 = {"H": 2}
+    t1_ = Rec.from_code(env0, code0, g1, None)
+    if len(calls) != 1 or calls[0][0] is not Rec or calls[0][1] is not env0 or calls[0][3] is not g1:
+        fails.append("from_code does not build the template by cls._from_namespace(environment, namespace, globals)")
+    else:
+        ns1 = calls[0][2]
+        if not (callable(ns1.get("root")) and "b" in ns1.get("blocks", {}) and ns1.get("name") == "nm" and ns1.get("__file__") == "fn"):
+            fails.append("from_code does not hand _from_namespace the namespace in which the compiled module was executed")
+        if t1_.root_render_func is not ns1.get("root"):
+            fails.append("from_code does not return the template built by _from_namespace")
     row("same_constructor", fails)
 
     # _from_namespace natively on a recording namespace: reads name/__file__/blocks/root/debug_info, writes environment
